@@ -88,8 +88,18 @@ fn eval_surface(root: &PathBuf, tag: usize, w: i32, h: i32, px: &[u32]) -> Resul
         // PNG export
         if w > 0 && h > 0 {
             let path = tmp_png(root, tag);
+            // the target path already holds a longer file (the export must replace it)
+            std::fs::write(&path, vec![0xaau8; 8192.max(8 * n + 1024)]).map_err(|e| ("png-precreate".to_string(), e.to_string()))?;
             if let Err(e) = dt.write_png(&path) {
                 return Err(("write_png-failed".into(), format!("{:?}", e)));
+            }
+            // the file is exactly one PNG datastream: signature first, IEND chunk last (a target
+            // path that already holds a longer file must be replaced, not overwritten in place)
+            let raw = std::fs::read(&path).map_err(|e| ("png-open".to_string(), e.to_string()))?;
+            const SIG: [u8; 8] = [0x89, b'P', b'N', b'G', 0x0d, 0x0a, 0x1a, 0x0a];
+            const IEND: [u8; 12] = [0, 0, 0, 0, b'I', b'E', b'N', b'D', 0xae, 0x42, 0x60, 0x82];
+            if raw.len() < 20 || raw[..8] != SIG || raw[raw.len() - 12..] != IEND {
+                return Err(("png-file-is-not-exactly-one-datastream".into(), format!("{} bytes; starts {:x?}, ends {:x?}", raw.len(), &raw[..raw.len().min(8)], &raw[raw.len().saturating_sub(12)..])));
             }
             let f = std::fs::File::open(&path).map_err(|e| ("png-open".to_string(), e.to_string()))?;
             let dec = png::Decoder::new(f);
